@@ -305,7 +305,7 @@ def run(tier):
     res.instance("C20.R3", "lock order edges: %s" % (sorted("%s->%s@%s" % (a, b, w) for (a, b), w in order.items()) or "none (locks are never nested)"),
                  cyc is None, finding=f)
     # ------------------------------------------------------------------ R4
-    res.rule("C20.R4", "a ticket-key node used after g_sessTicketLock was released and re-acquired was pinned (inUse = 1) before the release")
+    res.rule("C20.R4", "a ticket-key node used after g_sessTicketLock was released and re-acquired was pinned (inUse raised) before the release")
     from sa import cfgutil as cu
     from sa.pp import pp as _pp
 
@@ -358,11 +358,18 @@ def run(tier):
 
                 def pins(x, vid=vid):
                     for m in walk(x):
-                        if m.get("k") == "bin" and m["op"] == "=" and (strip(m["l"]) or {}).get("f") == "inUse":
-                            bse = strip((strip(m["l"]) or {}).get("b") or {})
+                        tgt = None
+                        if m.get("k") == "bin" and m["op"] == "=" and not ((strip(m["r"]) or {}).get("k") == "int" and strip(m["r"])["v"] == 0):
+                            tgt = strip(m["l"])
+                        elif m.get("k") == "bin" and m["op"] == "+=" and (strip(m["r"]) or {}).get("k") == "int" and strip(m["r"])["v"] > 0:
+                            tgt = strip(m["l"])
+                        elif m.get("k") == "un" and m.get("op") in ("post++", "pre++", "++"):
+                            tgt = strip(m["e"])
+                        if tgt is not None and tgt.get("f") == "inUse":
+                            bse = strip(tgt.get("b") or {})
                             while bse is not None and bse.get("k") == "cast":
                                 bse = strip(bse["e"])
-                            if bse is not None and bse.get("id") == vid and not ((strip(m["r"]) or {}).get("k") == "int" and strip(m["r"])["v"] == 0):
+                            if bse is not None and bse.get("id") == vid:
                                 return True
                     return False
 
@@ -384,6 +391,93 @@ def run(tier):
                                  file=fn.relfile, line=uln)
                 res.instance("C20.R4", "%s: %s pinned before the unlock at line %s" % (fn.name, v["n"], uln), esc is None, finding=f_)
     res.floor("C20.R4", 1)
+    # ------------------------------------------------------------------ R6
+    res.rule("C20.R6", "the shared ticket-key list may be emptied by another thread at any unlocked moment: a local loaded from "
+                       "keys->sessTickets / ->next is dereferenced only under a branch fact that it is not NULL")
+    n6 = 0
+    for fn in sorted(prog.functions.values(), key=lambda f: f.qname):
+        if not fn.blocks or not fn.relfile.startswith("matrixssl/") or "/test/" in fn.relfile:
+            continue
+        loaded = {}
+        for b, ln, nd in fn.nodes():
+            if nd.get("k") == "bin" and nd["op"] == "=" or nd.get("k") == "decl" and "init" in nd:
+                l = strip(nd["l"]) if nd.get("k") == "bin" else nd.get("var")
+                r = strip(nd["r"]) if nd.get("k") == "bin" else strip(nd["init"])
+                while r is not None and r.get("k") == "cast":
+                    r = strip(r["e"])
+                if l is not None and l.get("k") in ("var", None) and l.get("sc", "l") == "l" and "id" in l and r is not None and \
+                        r.get("k") == "mem" and r.get("f") == "sessTickets":
+                    loaded[l["id"]] = l.get("n")
+        if not loaded:
+            continue
+        gf = cu.guard_facts(fn)
+        rd = cu.reaching_defs(fn)
+
+        def is_load(r):
+            r = strip(r)
+            while r is not None and r.get("k") == "cast":
+                r = strip(r["e"])
+            return r is not None and r.get("k") == "mem" and r.get("f") == "sessTickets"
+        for b in fn.blocks:
+            for i, ln, x in cu.block_exprs(b):
+                for m in walk(x):
+                    if m.get("k") == "mem" and m.get("arrow"):
+                        v = strip(m.get("b") or {})
+                        while v is not None and v.get("k") == "cast":
+                            v = strip(v["e"])
+                        if v is None or v.get("k") != "var" or v.get("id") not in loaded:
+                            continue
+                        ds = cu.defs_at(fn, rd, b["id"], i, v["id"])
+                        # decided where the value certainly is the list head as loaded (other definitions - the next pointer
+                        # tested by a loop condition, an allocation result - have their own tests in other terms)
+                        if not ds or not all(d[2] in ("assign", "decl") and d[3] is not None and is_load(d[3]) for d in ds):
+                            continue
+                        n6 += 1
+                        nm = v["n"]
+                        srcs = set(cu.ftext(d[3]) for d in ds)
+                        names = {nm} | srcs
+                        facts = gf.get(b["id"], ())
+                        ok = any((txt in names and tr) or (txt in tuple("(%s != 0)" % q for q in names) and tr) or
+                                 (txt in tuple("(%s == 0)" % q for q in names) and not tr) for (txt, tr) in facts)
+                        f_ = None
+                        if not ok:
+                            f_ = Finding(PROP, "C20.R6", fn.name, "%s->%s without a NULL test" % (nm, m.get("f")),
+                                         "%s:%s %s(): %s was loaded from the shared ticket-key list (keys->sessTickets) and %s->%s is "
+                                         "evaluated without a branch fact that %s is not NULL: matrixSslDeleteSessionTicketKey (another "
+                                         "thread, or the application between two calls) may have removed the last key" % (
+                                             fn.relfile, ln, fn.name, nm, nm, m.get("f"), nm), file=fn.relfile, line=ln)
+                        res.instance("C20.R6", "%s:%s %s->%s under %s != NULL" % (fn.name, ln, nm, m.get("f"), nm), ok, finding=f_)
+    res.floor("C20.R6", 3)
+    # ------------------------------------------------------------------ R7
+    res.rule("C20.R7", "the pin of a ticket-key node is a reference count: inUse of a psSessionTicketKeys_t is only incremented and "
+                       "decremented - a constant store would drop the pins of the other sessions sharing the key")
+    n7 = 0
+    for fn in sorted(prog.functions.values(), key=lambda f: f.qname):
+        if not fn.blocks or not fn.relfile.startswith("matrixssl/") or "/test/" in fn.relfile:
+            continue
+        for b, ln, nd in fn.nodes():
+            tgt, kind = None, None
+            if nd.get("k") == "bin" and nd["op"] in ("=", "+=", "-=", "|=", "&="):
+                tgt, kind = strip(nd["l"]), nd["op"]
+            elif nd.get("k") == "un" and nd.get("op") in ("post++", "pre++", "++", "post--", "pre--", "--"):
+                tgt, kind = strip(nd["e"]), nd["op"]
+            if tgt is None or tgt.get("k") != "mem" or tgt.get("f") != "inUse":
+                continue
+            bt = (strip(tgt.get("b") or {}) or {}).get("t") or ""
+            if "sessTicketKey" not in bt and "psSessionTicketKeys" not in bt:
+                continue
+            n7 += 1
+            ok = kind in ("post++", "pre++", "++", "post--", "pre--", "--") or \
+                (kind in ("+=", "-=") and (strip(nd["r"]) or {}).get("k") == "int" and strip(nd["r"])["v"] == 1)
+            f_ = None
+            if not ok:
+                f_ = Finding(PROP, "C20.R7", fn.name, "ticket key inUse overwritten (%s)" % kind,
+                             "%s:%s %s(): `%s %s ...` on the inUse member of a shared ticket key: g_sessTicketLock is released around the "
+                             "ticket callback while a session holds the node, so another session storing a constant here drops that pin; "
+                             "matrixSslDeleteSessionTicketKey then frees the node under the first session (use after free)" % (
+                                 fn.relfile, ln, fn.name, _pp(tgt), kind), file=fn.relfile, line=ln)
+            res.instance("C20.R7", "%s:%s %s %s" % (fn.name, ln, _pp(tgt), kind), ok, finding=f_)
+    res.floor("C20.R7", 3)
     # ------------------------------------------------------------------ R5
     res.rule("C20.R5", "session table: an entry is unlinked from the replacement list only when it just became in use (inUse == 1) "
                        "and linked back only when it just became unused (inUse == 0)")
